@@ -48,7 +48,7 @@ pub fn golden_histories() -> Vec<(String, History)> {
     let mut out = Vec::new();
     for kt in Kt::ALL {
         let keys: Vec<Key> = dedup_keys((0..40).map(|i| gkey(kt, i)).collect());
-        let nk = keys.len() as u16;
+        let nk = keys.len() as u32;
         // H1: inserts only, 8 buckets
         let mut ops = Vec::new();
         for i in 0..nk.min(24) {
@@ -124,7 +124,7 @@ pub fn golden_histories() -> Vec<(String, History)> {
         ));
         // H3: large slots, a large free slot left on the shared list, 1024 buckets
         let mut ops = Vec::new();
-        for i in 0..10u16.min(nk) {
+        for i in 0..10u32.min(nk) {
             ops.push(Op::Put {
                 k: i,
                 v: Val::P {
